@@ -484,6 +484,10 @@ def decide1(h, goto, workdir, tier_cap):
     for sv in solvers:
         v, o, s = smt_solve(smt, sv, cap)
         verdicts[sv] = (v, o, s)
+    if verdicts["cvc5"][0] not in ("sat", "unsat") and "z3" not in verdicts:
+        # portfolio: cvc5 gave up (it is weak at finding models with uninterpreted functions) -> z3 5.1 on the same formula
+        solvers.append("z3")
+        verdicts["z3"] = smt_solve(smt, "z3", cap)
     r.secs = time.time() - t0
     r.solver = "cbmc-smt2+" + "+".join(solvers)
     v5 = verdicts["cvc5"][0]
